@@ -14,6 +14,7 @@ package main
 import (
 	"encoding/json"
 	"fmt"
+	"strings"
 
 	"github.com/agglayer/aggkit/bridgesync"
 	"github.com/ethereum/go-ethereum/common"
@@ -241,7 +242,7 @@ func run(c *mc.Ctx, u mc.Unit) {
 	} else if len(after.diff(before)) == 0 {
 		key = "nothing-recorded-despite-eligible-call"
 	} else if len(bestDiff) <= 3 {
-		key = fmt.Sprintf("wrong-fields-%v", bestDiff)
+		key = "wrong-fields/" + strings.Join(bestDiff, "+")
 	}
 	c.Failf(key, "event gi=%s tree %s: eligible frames %v; recorded %s is not what any of them carries; closest eligible frame #%d would give %s (fields differing: %v); recorded details equal frame %d",
 		ev.Text(16), tree, elig, after.short(), best, detailsFrom(&fs[best], before).short(), bestDiff, source)
